@@ -647,7 +647,6 @@ P("loc_slice_one_column_list", lambda t: t.df.loc[2:9, ["u"]], needs_known=True,
 P("tail_tail_outer_larger", lambda t: t.df.tail(2, compute=False).tail(5, compute=False) if t.lazy else t.df.tail(2).tail(5), tags={"head"}, dask_only=True)
 P("tail_elemwise_tail_outer_larger", lambda t: (t.df.tail(2, compute=False).u + 1).tail(4, compute=False) if t.lazy else (t.df.tail(2).u + 1).tail(4), tags={"head"}, dask_only=True)
 P("head_head_outer_larger", lambda t: t.df.head(2, compute=False).head(5, compute=False) if t.lazy else t.df.head(2).head(5), tags={"head"}, dask_only=True)
-P("merge_left_on_right_index_inner", lambda t: t.df[["u", "f"]].merge(t.df2[["u", "w"]].set_index("u"), left_on="u", right_index=True, how="inner"), order_free=True, index_free=True, tags={"sort"})
 P("merge_right_bcast_left_diff_keys", lambda t: t.df2[["a", "w"]].rename(columns={"a": "ka"}).merge(t.df[["a", "u"]], left_on="ka", right_on="a", how="right", broadcast=True) if t.lazy else t.df2[["a", "w"]].rename(columns={"a": "ka"}).merge(t.df[["a", "u"]], left_on="ka", right_on="a", how="right"), order_free=True, index_free=True)
 P("value_counts_normalize_nulls", lambda t: t.df.b.value_counts(normalize=True), order_free=True)
 P("value_counts_normalize_keepna", lambda t: t.df.b.value_counts(normalize=True, dropna=False), order_free=True)
